@@ -194,6 +194,7 @@ package messagequeue
 //@            gsmsg.Builder.blkSize, gsmsg.Builder.outgoingBlocks, allmaps("map[graphsync.RequestID]graphsync.ResponseStatusCode"),
 //@            allmaps("map[graphsync.RequestID][]graphsync.ExtensionData"), allmaps("map[graphsync.RequestID][]gsmsg.GraphSyncLinkMetadatum")
 //@   ensures (forall t int :: nFinal[t] == old(nFinal)[t]) || (exists t0 int :: nFinal == upd(old(nFinal), t0, old(nFinal)[t0] + 1))
+//@   ensures buildersOK(mq)
 //@   callsite Publisher.Close: assert nFinal == upd(old(nFinal), metadata.topic, old(nFinal)[metadata.topic] + 1)
 //@   loop 1 invariant nFinal == old(nFinal) && mq.sender != nil && buildersOK(mq)
 //@ func openSender
@@ -202,3 +203,17 @@ package messagequeue
 //@   modifies alloc
 //@   -- assumption about the network layer (not proved): a sender is returned whenever no error is
 //@   trusts result1 == nil ==> result0 != nil
+
+//@ -- C16: the shutdown drain reports every message that is still queued: it stops only when nothing is left
+//@ -- (an empty or unbuildable message in front has nothing to report, but must not hide the messages behind it)
+//@ func MessageQueue.runQueue
+//@   lenient
+//@   safety off
+//@   requires buildersOK(mq)
+//@   modifies mq.sender, mq.builders, Builder.responseStreams, Builder.subscribers, Builder.blockData, alloc, relBytes, relCalls, nFinal,
+//@            allmaps("map[graphsync.RequestID]io.Closer"), allmaps("map[graphsync.RequestID]notifications.Subscriber"), allmaps("map[graphsync.RequestID][]graphsync.BlockData"),
+//@            gsmsg.Builder.blkSize, gsmsg.Builder.outgoingBlocks, allmaps("map[graphsync.RequestID]graphsync.ResponseStatusCode"),
+//@            allmaps("map[graphsync.RequestID][]graphsync.ExtensionData"), allmaps("map[graphsync.RequestID][]gsmsg.GraphSyncLinkMetadatum")
+//@   loop 1 invariant buildersOK(mq)
+//@   loop 2 invariant buildersOK(mq)
+//@   loop 2 exit len(mq.builders) == 0
